@@ -107,7 +107,22 @@ func c04Run(t *testing.T, sc Scenario, res *Result) {
 		}
 
 	case "record":
+		// long state-machine runs: a forced stop after hundreds of steps must replay as well as one after a few
+		steps := pick(r, []string{"30", "30", "30", "300", "2000"})
+		setFlags(map[string]string{"rapid.steps": steps})
 		p := genProg(sc.Seed, c04Opts(sc.Seed))
+		if steps != "30" {
+			hasRepeat := false
+			for _, st := range p.Steps {
+				if st.Op == "repeat" {
+					hasRepeat = true
+				}
+			}
+			if hasRepeat {
+				sc.N = 3 // long runs: fewer seeds per program
+				res.inc("long_repeat_programs")
+			}
+		}
 		lg := &Log{keepAll: true}
 		prop := lg.prop(p.body())
 		var dig []string
